@@ -12,7 +12,7 @@ open Refrunabft
 let eval inp obs =
   let s = parse inp in
   let res = run_reference s in
-  let m = event_tokens res @ List.init (unopened s res) (fun _ -> "skip") @ block_tokens res in
+  let m = event_tokens res @ List.init (unopened s res) (fun _ -> "skip") @ block_tokens s res in
   let cross = (match s.eps with [d] when s.nev <= 13 -> fc_crosscheck s.vals d | _ -> true) in
   (* the extracted line-by-line model of abft on the same scenario: impl vs model (model_obs), impl vs
      reference (spec_ok: the property), model vs reference (model_spec_ok: impl_refines_spec, tested) *)
